@@ -19,3 +19,18 @@ Theorem c16_delivered_interval : forall e n b b' rs cnt, pull_spec e n b = PRGot
 Proof. exact pull_spec_got. Qed.
 Print Assumptions c16_delivered_interval.
 
+
+(** run level: nothing panics on any run of a known-size kind except the documented panics for a chunk
+    size of zero, a one-shot chunk pull of size zero reports the end, the end of life never panics *)
+From OCI.proofs Require Import RunC16.
+Theorem c16_runs_known_kinds : forall e, known_env e -> forall progs, wf_progs progs -> plain_progs progs -> forall sched,
+  nowrap (c_labels (exec e (init progs) sched)) ->
+  chk_C16 e (c_trace (exec e (init progs) sched)) = true.
+Proof. exact known_C16_run. Qed.
+Print Assumptions c16_runs_known_kinds.
+
+Theorem c16_end_of_life_known_kinds : forall e, known_env e -> forall progs, wf_progs progs -> plain_progs progs -> forall sched,
+  nowrap (c_labels (exec e (init progs) sched)) -> forall t f,
+  chk_C16 e (c_trace (final_step e (exec e (init progs) sched) t f)) = true.
+Proof. exact known_C16_final. Qed.
+Print Assumptions c16_end_of_life_known_kinds.
